@@ -6,6 +6,7 @@ vm_compute over Qc, KL as an Expr term evaluated with mpmath) turns the paramete
 (m, S), pushes q(u) through the prior conditional and evaluates the closed-form KL.  Compared
 with model(X).mean/.covariance_matrix (eval), .mean/.variance (train),
 variational_distribution.mean/.covariance_matrix and kl_divergence()."""
+import contextlib
 import itertools
 import json
 import random
@@ -38,6 +39,7 @@ TOL = {"vs": 1e-8, "unwh": 1e-8, "bdec": 1e-8, "orth": 1e-8, "grid": 1e-8, "lmc"
 
 KBITS = 16                 # kernel matrices of most cases are rounded to a 2^-16 grid (see DyadicKernel)
 JIT_DY = 2.0 ** -20        # explicit jitter_val of those cases (a dyadic close to the 1e-6 default)
+JIT_SET = 2.0 ** -17       # value given through settings.variational_cholesky_jitter in the `jset` cases
 
 
 class DyadicKernel(gpytorch.kernels.Kernel):
@@ -93,8 +95,10 @@ def make_mean(name, d, bs, rng):
         return gpytorch.means.ZeroMean(batch_shape=bsz)
     if name == "constant":
         m = gpytorch.means.ConstantMean(batch_shape=bsz)
-        m.constant.data.copy_(torch.tensor([dy(rng, -1.5, 1.5, 8) for _ in range(int(np.prod(bs)) if bs else 1)])
-                              .reshape(m.constant.shape))
+        vals = [dy(rng, -1.5, 1.5, 8) for _ in range(int(np.prod(bs)) if bs else 1)]
+        if len(vals) > 1 and len(set(vals)) == 1:
+            vals[-1] += 0.5                 # batch members must be distinguishable
+        m.constant.data.copy_(torch.tensor(vals).reshape(m.constant.shape))
         return m
     m = gpytorch.means.LinearMean(d, batch_shape=bsz)
     m.weights.data.copy_(torch.tensor([dy(rng, -1, 1, 8) for _ in range(m.weights.numel())]).reshape(m.weights.shape))
@@ -268,14 +272,24 @@ def gen_cases(rng, tier):
                 if strat == "bdec" and dist == "delta":
                     continue
                 cases.append(base(strat, dist, raw=True, m=rng.randint(2, 3), n=2, g=2))
+        # jitter taken from settings.variational_cholesky_jitter (the `jitter_val is None` branch of jitter_val / LMC)
+        for strat in ("vs", "unwh", "ciq", "bdec", "orth", "lmc"):
+            dist = rng.choice([x for x in DISTS if not (strat == "bdec" and x == "delta")])
+            kw = dict(jset=True, m=rng.randint(2, 3), n=2)
+            if strat == "orth":
+                kw.update(g=2)
+            if strat == "lmc":
+                kw.update(T=2, Q=rng.randint(1, 2), zbatch=False, kbatch=rng.random() < 0.5, ti=[0, 1])
+            cases.append(base(strat, dist, **kw))
         # batch patterns for the three plain strategies
         for strat in ("vs", "unwh", "ciq"):
             for bp in ("model", "x", "both", "params"):
                 for dist in rng.sample(DISTS, 2 if not big else 5):
                     cases.append(base(strat, dist, batch=bp, m=rng.randint(2, 3), n=2))
         # batch-decoupled with separate mean/variance hyperparameters
-        for dist in ("cholesky", "meanfield", "natural", "trilnatural"):
-            cases.append(base("bdec", dist, batch="hypers", m=rng.randint(2, 3)))
+        # (a prior mean that differs between the mean half and the variance half: the two halves are distinguishable)
+        for k, dist in enumerate(("cholesky", "meanfield", "natural", "trilnatural")):
+            cases.append(base("bdec", dist, batch="hypers", m=rng.randint(2, 3), mean=("constant", "linear")[k % 2]))
         # orthogonally decoupled on top of a whitened base with every base distribution
         for dist in DISTS:
             cases.append(base("orth", dist, m=rng.randint(2, 3), n=2, g=rng.randint(2, 3)))
@@ -325,7 +339,7 @@ def build(case):
     kern = make_kernel(case["kernel"], d, mb, rng)
     if not case.get("raw"):
         kern = DyadicKernel(kern)
-    jkw = {} if case.get("raw") else dict(jitter_val=JIT_DY)
+    jkw = {} if (case.get("raw") or case.get("jset")) else dict(jitter_val=JIT_DY)
     mean = make_mean(case["mean"], d, mb, rng)
     allpts = points(rng, m + n + case.get("g", 0) + (m if strat == "bdec" else 0), d)
     Z = torch.tensor(allpts[:m])
@@ -438,6 +452,22 @@ def prior_pieces(b):
     return list(bs), K, mu
 
 
+def same_prior_under(b, variant):
+    """the prior pieces handed to the model were computed under default settings; a settings variant that changes how the
+    kernel is evaluated (trace_mode: explicit distances) may move an entry by an ulp, which the 2^-KBITS rounding of
+    DyadicKernel could amplify: such a case is skipped for that variant (never observed; counted if it happens)"""
+    with _multi(*VARIANTS[variant]()):
+        _, K1, mu1 = prior_pieces(b)
+    _, K0, mu0 = prior_pieces(b)
+    return K0.shape == K1.shape and float((K0 - K1).abs().max()) <= 1e-13 and float((mu0 - mu1).abs().max()) <= 1e-13
+
+
+def kzz_cond(b):
+    _, K, _ = prior_pieces(b)
+    m = b.case["m"]
+    return max(float(torch.linalg.cond(K[i][:m, :m] + b.jit * torch.eye(m))) for i in range(K.shape[0]))
+
+
 def tight():
     return _multi(gs.cg_tolerance(1e-10), gs.eval_cg_tolerance(1e-10), gs.minres_tolerance(1e-10),
                   gs.num_contour_quadrature(40), gs.max_cg_iterations(2000), gs.ciq_samples(False))
@@ -457,12 +487,69 @@ class _multi:
         return False
 
 
-def impl_outputs(b):
-    """public outputs in eval and training mode"""
+# settings-selected branches of the anchored strategies (grep `settings.` / `trace_mode` in gpytorch/variational): every
+# built configuration is evaluated once more under each of these and compared with the SAME closed form
+VARIANTS = {
+    # dense branch of VariationalStrategy.forward (and the explicit-distance branch of the stationary kernels)
+    "trace_mode": lambda: [gs.trace_mode(True)],
+    # model.forward returns evaluated kernel matrices instead of LazyEvaluatedKernelTensors
+    "lazy_kernels_off": lambda: [gs.lazily_evaluate_kernels(False)],
+    # num_induc > max_cholesky_size: UnwhitenedVariationalStrategy keeps Kzz lazy and solves with (tight) CG
+    "max_cholesky_size_0": lambda: [gs.max_cholesky_size(0)],
+    # fast_computations off with max_cholesky_size(0): the first disjunct of the Cholesky test decides
+    "fast_computations_off": lambda: [gs.fast_computations(covar_root_decomposition=False, log_prob=False, solves=False),
+                                      gs.max_cholesky_size(0)],
+    # UnwhitenedVariationalStrategy eval shortcut (mean only); every other strategy must be unaffected
+    "skip_posterior_variances": lambda: [gs.skip_posterior_variances(True)],
+    # no consumer in the variational package: must be inert
+    "memory_efficient_no_toeplitz": lambda: [gs.memory_efficient(True), gs.use_toeplitz(False)],
+}
+# CG at the tightest tolerance linear_cg can reach: its eps = 1e-10 regulariser floors the relative residual at ~1e-6 (it
+# reports "terminated in 2000 iterations with average residual norm 5e-7" on a 5 x 5 system of condition number 12), so the
+# solution error is ~1e-6 x cond(Kzz + jitter): tolerance 1e-5 x cond, cases with cond > 100 are not run on this path
+VARIANT_TOL = {"max_cholesky_size_0": 1e-5}
+CG_MAX_COND = 100.0
+VARIANT_SKIP_KL = {"max_cholesky_size_0"}        # the log-determinant is a stochastic trace estimate on that path
+KNOWN_KEY_PREFIXES = ("kl:unwh:prior-default-jitter:", "cov-diagonal-only:ciq:natural", "kl-zero:ciq:natural")
+
+
+def variants_for(case, tier):
+    if case["family"] == "grid2d":
+        return []
+    vs_ = ["trace_mode", "lazy_kernels_off", "fast_computations_off", "skip_posterior_variances"]
+    if case["strat"] == "unwh":
+        # the only reader of max_cholesky_size in the anchored files.  (Elsewhere the setting only switches linear_operator's
+        # own root decompositions to Lanczos approximations whose error no tolerance setting controls.)
+        vs_.append("max_cholesky_size_0")
+    if case["strat"] == "grid":
+        vs_.append("memory_efficient_no_toeplitz")
+    if case["strat"] == "ciq" and tier == "quick":
+        # contour-integral quadrature is the slow one: the settings its own code reads plus one rotating other
+        vs_ = ["lazy_kernels_off", vs_[case["hseed"] % len(vs_)]]
+        vs_ = sorted(set(vs_))
+    return vs_
+
+
+class VariantOut:
+    """forwards failures with the settings variant in key, text and case (keys of recorded known findings unchanged:
+    the same finding under another setting is the same finding)"""
+
+    def __init__(self, out, variant):
+        self.out, self.variant = out, variant
+
+    def fail(self, key, what, case, **kw):
+        if not key.startswith(KNOWN_KEY_PREFIXES):
+            key = "%s@%s" % (key, self.variant)
+        case = dict(case, settings=self.variant) if isinstance(case, dict) else case
+        self.out.fail(key, "%s [under gpytorch.settings %s]" % (what, self.variant), case, **kw)
+
+
+def impl_outputs(b, variant=None):
+    """public outputs in eval and training mode (variant: name of a VARIANTS entry active during the calls)"""
     res = {}
     for mode in ("eval", "train"):
         getattr(b.model, mode)()
-        with torch.no_grad(), tight():
+        with torch.no_grad(), tight(), _multi(*(VARIANTS[variant]() if variant else [])):
             out = b.model(b.X)
             r = dict(mean=out.mean.detach().clone(), var=out.variance.detach().clone())
             if mode == "eval":
@@ -605,14 +692,15 @@ def bsel(t, bshape, bi, ev):
 
 
 def short(case):
-    return {k: case[k] for k in ("strat", "dist", "m", "n", "d", "kernel", "mean", "batch", "family", "hseed") if k in case}
+    return {k: case[k] for k in ("strat", "dist", "m", "n", "d", "kernel", "mean", "batch", "family", "hseed", "jset", "raw") if k in case}
 
 
-def compare_plain(out, b, impl, dec_by_mode):
+def compare_plain(out, b, impl, dec_by_mode, variant=None):
     """strategies whose output is one MVN per batch element"""
     case = b.case
     strat, dist = case["strat"], case["dist"]
-    tol = TOL[strat]
+    tol = max(TOL[strat], VARIANT_TOL.get(variant, 0.0) * max(1.0, getattr(b, "cond", 1.0)))
+    mean_only_eval = variant == "skip_posterior_variances" and strat == "unwh" and case["family"] != "x_is_z"
     tag = "%s:%s" % (strat, dist)
     desc = short(case)
     ngd_ciq = strat == "ciq" and dist == "natural"
@@ -641,11 +729,13 @@ def compare_plain(out, b, impl, dec_by_mode):
                          impl=mean_i.tolist(), model=[float(v) for v in dm["mean"]])
             diag = [max(float(dm["cov"][i][i]), 0.0) for i in range(len(dm["mean"]))]
             var_i = bsel(r["var"], b.bshape, bi, 1)
+            if mode == "eval" and mean_only_eval:
+                var_i = torch.tensor(diag)      # documented: no covariance is computed on this shortcut (mean and KL only)
             e = maxdiff(var_i, diag)
             if e > tol:
                 out.fail("var:%s:%s" % (tag, mode), "q(f) variance differs from the closed form by %.3g" % e, desc,
                          impl=var_i.tolist(), model=diag)
-            if mode == "eval":
+            if mode == "eval" and not mean_only_eval:
                 cov_i = bsel(r["cov"], b.bshape, bi, 2)
                 e = maxdiff(cov_i, dm["cov"])
                 if e > tol:
@@ -674,7 +764,7 @@ def compare_plain(out, b, impl, dec_by_mode):
                                  "encode (%.3g)" % e, desc, impl=bsel(r["qcov"], b.bshape, bi, 2).tolist(),
                                  model=[[float(v) for v in row] for row in dm["qcov"]])
             # KL
-            if case["family"] == "grid2d":
+            if case["family"] == "grid2d" or variant in VARIANT_SKIP_KL:
                 continue      # m = 16: beyond the model's determinant; the KL code path is that of the d = 1 cases
             if "kl" not in r:
                 out.fail("kl-exception:%s:%s" % (tag, mode), "kl_divergence() raised %s" % r.get("kl_exc"), desc)
@@ -746,43 +836,83 @@ def run(out, ctx):
                 "(negative stddev), Delta, Natural, TrilNatural}; inducing sets 2..5, d 1..2, 4 kernels x 3 means; batch "
                 "patterns none / model / x / both / params-only; families: random q(u), q(u)=p(u), X==Z (unwhitened "
                 "shortcut), initialize_variational_distribution round trip for every class; eval mode mean+full "
-                "covariance+KL, training mode mean+variance+KL. non-trivial = q(u) != p(u)")
-    out.extra["tolerances"] = dict(TOL, kl="same as strategy", qu_moments=1e-8)
+                "covariance+KL, training mode mean+variance+KL; every configuration is evaluated again under each settings-selected "
+                "branch (trace_mode, lazily_evaluate_kernels off, fast_computations off + max_cholesky_size(0), "
+                "skip_posterior_variances, for the unwhitened strategy max_cholesky_size(0) = CG solves, for the grid strategy "
+                "memory_efficient / use_toeplitz off; CIQ in the quick tier: lazily_evaluate_kernels off + one rotating other) and "
+                "compared with the same closed form; cases taking the jitter from settings.variational_cholesky_jitter. "
+                "non-trivial = q(u) != p(u)")
+    out.extra["tolerances"] = dict(TOL, kl="same as strategy", qu_moments=1e-8,
+                                   settings_variants="same as default settings; unwhitened CG path (max_cholesky_size(0)): "
+                                   "1e-5 x cond(Kzz + jitter), cond <= %g, KL not compared (stochastic log-determinant)" % CG_MAX_COND)
     built, jobs = [], {"run_c14": [], "run_c14_dec": []}
+    import time as _t
+    variant_seconds = [0.0]
     for case in cases:
-        try:
-            b = build(case)
-        except Exception as e:  # noqa: BLE001
-            out.fail("impl-exception:build:%s:%s:%s" % (case["strat"], case["dist"], type(e).__name__),
-                     "constructing the model raised %r" % e, short(case))
-            continue
-        if case["family"] == "prior":
+        # `jset` cases take the jitter from gpytorch.settings.variational_cholesky_jitter (no explicit jitter_val):
+        # construction, planning (reads strategy.jitter_val) and every call happen inside the context
+        with (gs.variational_cholesky_jitter(double_value=JIT_SET) if case.get("jset") else contextlib.nullcontext()):
             try:
-                set_prior(b)
+                b = build(case)
             except Exception as e:  # noqa: BLE001
-                out.fail("harness:set-prior", "could not set q(u)=p(u): %r" % e, short(case), no_input=True)
+                out.fail("impl-exception:build:%s:%s:%s" % (case["strat"], case["dist"], type(e).__name__),
+                         "constructing the model raised %r" % e, short(case))
                 continue
-        b.slots = {}
-        try:
-            for mode in ("eval", "train"):
-                if mode == "train" and case["strat"] != "orth":
-                    b.slots[mode] = b.slots["eval"]
+            if case["family"] == "prior":
+                try:
+                    set_prior(b)
+                except Exception as e:  # noqa: BLE001
+                    out.fail("harness:set-prior", "could not set q(u)=p(u): %r" % e, short(case), no_input=True)
                     continue
-                pl = plan(b, mode)
-                b.slots[mode] = []
-                for fn, term, meta in pl:
-                    if meta.get("cross") or meta.get("alt"):
-                        b.slots.setdefault("cross" if meta.get("cross") else "alt", []).append((fn, len(jobs[fn])))
-                    else:
-                        b.slots[mode].append((fn, len(jobs[fn])))
-                    jobs[fn].append(term)
-            b.impl = impl_outputs(b)
-        except Exception as e:  # noqa: BLE001
-            import traceback
-            out.fail("impl-exception:%s:%s:%s" % (case["strat"], case["dist"], type(e).__name__),
-                     "implementation raised %r\n%s" % (e, traceback.format_exc()[-800:]), short(case))
-            continue
-        built.append(b)
+            b.slots = {}
+            try:
+                for mode in ("eval", "train"):
+                    if mode == "train" and case["strat"] != "orth":
+                        b.slots[mode] = b.slots["eval"]
+                        continue
+                    pl = plan(b, mode)
+                    b.slots[mode] = []
+                    for fn, term, meta in pl:
+                        if meta.get("cross") or meta.get("alt"):
+                            b.slots.setdefault("cross" if meta.get("cross") else "alt", []).append((fn, len(jobs[fn])))
+                        else:
+                            b.slots[mode].append((fn, len(jobs[fn])))
+                        jobs[fn].append(term)
+                b.impl = impl_outputs(b)
+                b.impl_var = {}
+                if not ctx.get("only_variant_free"):
+                    _tv = _t.time()
+                    for vname in variants_for(case, tier):
+                        try:
+                            if not same_prior_under(b, vname):
+                                out.count("excluded: prior pieces differ in the last bits under settings=%s" % vname)
+                                continue
+                        except Exception as e:  # noqa: BLE001
+                            # the model's own kernel cannot be evaluated under this setting (seen: DenseLinearOperator +
+                            # RootLinearOperator of an RBF + Linear kernel runs a Lanczos root_inv_decomposition of the
+                            # jitter-free kernel matrix under max_cholesky_size(0)): not the strategy's business
+                            out.count("excluded: model.forward raises %s under settings=%s" % (type(e).__name__, vname))
+                            continue
+                        if vname in VARIANT_TOL:
+                            b.cond = kzz_cond(b)
+                            if b.cond > CG_MAX_COND:
+                                out.count("excluded: cond(Kzz + jitter) > %g for the CG path" % CG_MAX_COND)
+                                continue
+                        try:
+                            b.impl_var[vname] = impl_outputs(b, vname)
+                        except Exception as e:  # noqa: BLE001
+                            import traceback
+                            out.case(dict(short(case), settings=vname), True, label="settings=%s" % vname)
+                            out.fail("impl-exception:%s:%s:%s@%s" % (case["strat"], case["dist"], type(e).__name__, vname),
+                                     "implementation raised %r under gpytorch.settings %s\n%s" % (e, vname, traceback.format_exc()[-800:]),
+                                     dict(short(case), settings=vname))
+                    variant_seconds[0] += _t.time() - _tv
+            except Exception as e:  # noqa: BLE001
+                import traceback
+                out.fail("impl-exception:%s:%s:%s" % (case["strat"], case["dist"], type(e).__name__),
+                         "implementation raised %r\n%s" % (e, traceback.format_exc()[-800:]), short(case))
+                continue
+            built.append(b)
     res = {}
     import time as _t
     _t0 = _t.time()
@@ -808,11 +938,18 @@ def run(out, ctx):
             mt_meta.append(b)
             continue
         compare_plain(out, b, b.impl, dec_by_mode)
+        for vname, impl_v in b.impl_var.items():
+            out.case(dict(short(case), settings=vname), nontrivial, label="settings=%s" % vname)
+            compare_plain(VariantOut(out, vname), b, impl_v, dec_by_mode, variant=vname)
     if mt_jobs:
         r2 = C.coq_run_cases("C14_mt", IMPORTS, "Definition run := run_c14_mt.", mt_jobs,
                              shard=max(1, (len(mt_jobs) + 3) // 4))
         for b, r in zip(mt_meta, r2):
             compare_mt(out, b, r)
+            for vname, impl_v in b.impl_var.items():
+                out.case(dict(short(b.case), settings=vname), True, label="settings=%s" % vname)
+                compare_mt(VariantOut(out, vname), b, r, impl=impl_v, variant=vname)
+    out.extra["variant_seconds"] = round(variant_seconds[0], 1)
     check_refusals(out)
     if not ctx.get("only_cases"):
         check_initialize(out, random.Random(seed * 7919 + 1414), tier)
@@ -855,7 +992,9 @@ def mt_term(b, decs):
     return "(%d%%nat, %d%%nat, %d%%nat, %s, %s, %s, %s)" % (Q, T, n, aterm, mus, cs, C.qc_lit(j))
 
 
-def compare_mt(out, b, r):
+def compare_mt(out, b, r, impl=None, variant=None):
+    impl = b.impl if impl is None else impl
+    tol = 1e-8
     case = b.case
     strat, dist, n, T = case["strat"], case["dist"], case["n"], case["T"]
     tag = "%s:%s" % (strat, dist)
@@ -868,18 +1007,18 @@ def compare_mt(out, b, r):
     mean = rd.qs(n * T)
     cov = rd.qmat(n * T, n * T)
     for mode in ("eval", "train"):
-        ri = b.impl[mode]
+        ri = impl[mode]
         e = maxdiff(ri["mean"].reshape(-1), mean)     # [n, T] row-major = interleaved
-        if e > 1e-8:
+        if e > tol:
             out.fail("mean:%s:%s" % (tag, mode), "multitask mean differs from the mixed latent means by %.3g" % e, desc,
                      impl=ri["mean"].tolist(), model=[float(v) for v in mean])
         e = maxdiff(ri["var"].reshape(-1), [cov[i][i] for i in range(n * T)])
-        if e > 1e-8:
+        if e > tol:
             out.fail("var:%s:%s" % (tag, mode), "multitask variance differs from the mixed latent covariances by %.3g"
                      % e, desc)
         if mode == "eval":
             e = maxdiff(ri["cov"], cov)
-            if e > 1e-8:
+            if e > tol:
                 out.fail("cov:%s:eval" % tag, "multitask covariance differs from sum_q a_q a_q^T (x) C_q by %.3g" % e,
                          desc, impl=ri["cov"].tolist(), model=[[float(v) for v in row] for row in cov])
         # task_indices mode: input i on task ti[i] = the marginal of the all-tasks joint at rows i*T + ti[i]
@@ -889,32 +1028,34 @@ def compare_mt(out, b, r):
                      desc)
         else:
             e = maxdiff(ri["ti_mean"], [mean[p] for p in idx])
-            if e > 1e-8:
+            if e > tol:
                 out.fail("task-indices:mean:%s:%s" % (tag, mode), "one-task-per-input mean differs from the marginal of "
                          "the all-tasks q(f) at (x_i, task_i) by %.3g" % e, desc, impl=ri["ti_mean"].tolist(),
                          model=[float(mean[p]) for p in idx])
             e = maxdiff(ri["ti_var"], [cov[p][p] for p in idx])
-            if e > 1e-8:
+            if e > tol:
                 out.fail("task-indices:var:%s:%s" % (tag, mode), "one-task-per-input variance differs from the marginal "
                          "of the all-tasks q(f) by %.3g" % e, desc)
             if mode == "eval":
                 e = maxdiff(ri["ti_cov"], [[cov[p][q] for q in idx] for p in idx])
-                if e > 1e-8:
+                if e > tol:
                     out.fail("task-indices:cov:%s:eval" % tag, "one-task-per-input covariance differs from the marginal "
                              "of the all-tasks q(f) at rows i*T + task_i by %.3g" % e, desc,
                              impl=ri["ti_cov"].tolist(), model=[[float(cov[p][q]) for q in idx] for p in idx])
         want = float(sum(d["kl"] for d in decs))
-        if "kl" not in ri:
+        if variant in VARIANT_SKIP_KL:
+            pass
+        elif "kl" not in ri:
             out.fail("kl-exception:%s:%s" % (tag, mode), "kl_divergence() raised %s" % ri.get("kl_exc"), desc)
-        elif ri["kl"].numel() != 1 or abs(float(ri["kl"]) - want) > 1e-8 * (1 + abs(want)):
+        elif ri["kl"].numel() != 1 or abs(float(ri["kl"]) - want) > tol * (1 + abs(want)):
             out.fail("kl:%s:%s" % (tag, mode), "kl_divergence() = %s but the sum of latent KLs is %.10g" %
                      (ri["kl"].tolist(), want), desc, impl=ri["kl"].tolist(), model=want)
     # the latent q(u) moments
-    q = b.impl["eval"]
+    q = impl["eval"]
     for bi, d in enumerate(decs):
-        if "qmean" in q and maxdiff(bsel(q["qmean"], b.bshape, bi, 1), d["qmean"]) > 1e-8:
+        if "qmean" in q and maxdiff(bsel(q["qmean"], b.bshape, bi, 1), d["qmean"]) > tol:
             out.fail("qu-mean:%s" % dist, "variational distribution mean is not what its parameters encode", desc)
-        if "qcov" in q and maxdiff(bsel(q["qcov"], b.bshape, bi, 2), d["qcov"]) > 1e-8:
+        if "qcov" in q and maxdiff(bsel(q["qcov"], b.bshape, bi, 2), d["qcov"]) > tol:
             out.fail("qu-cov:%s" % dist, "variational distribution covariance is not what its parameters encode", desc)
 
 
